@@ -1,4 +1,5 @@
 import Originium.Model.DBProofs
+import Originium.Model.DBTie
 /-! # C01 — a read returns the latest committed write, whatever the engine did in between
 
 `DB.run steps` executes any sequence of: commits (single- and multi-key, Set and Delete, any key and
@@ -50,7 +51,32 @@ example : (DB.run [.commit [⟨[97], [1], false⟩], .rotate, .flushAdd 1, .comm
     .flushRemove, .compact [true] 1 8]).isSome = true := by
   decide
 
+
+/-! ### The Go code itself: `DB.search`, translated from `/repo/db.go` on every run -/
+
+/-- in every reachable state the translated `DB.search` — given the skiplist's lower bound for the memtables (C17) and
+    `searchLowerBound` for the tables (C10) — returns the newest committed version at or below the read timestamp,
+    whatever rotations, flushes and compactions ran in between -/
+theorem C01_code_search (mayContain : TableM → Bytes → Bool)
+    (hbloom : ∀ t e, e ∈ t.entries → mayContain t e.key.user = true)
+    (steps : List Step) (s : St) (hrun : DB.run steps = some s) (k : Bytes) (r : Nat) (hr : s.low ≤ r) :
+    GenDB.search (fun g key => g.find? (geKey vlt key)) (fun key => search mayContain s.tables key.user key.ts)
+      s.mem s.imms ⟨k, r⟩ = newestBrute s.committed k r := by
+  rw [DBTie.search_tie]
+  exact C01_get_snapshot mayContain hbloom steps s hrun k r hr
+
+/-- the order in which the translated code consults the generations, stated outright: the active memtable, then the
+    immutable memtables newest first, then the tables; a lower bound counts only if it has the user key asked for -/
+theorem C01_code_search_order (lb : List E → VK → Option E) (slb : VK → Option E) (mem : List E) (imms : List (List E)) (key : VK) :
+    GenDB.search lb slb mem imms key =
+      match Gens.firstHit (fun g => (lb g key).filter (fun e => e.key.user == key.user)) (mem :: imms.reverse) with
+      | some x => some x
+      | none => (slb key).filter (fun e => e.key.user == key.user) :=
+  DBTie.search_eq lb slb mem imms key
+
 #print axioms C01_get_snapshot
 #print axioms C01_get_latest
 #print axioms C01_background_invisible
+#print axioms C01_code_search
+#print axioms C01_code_search_order
 end Props
